@@ -359,6 +359,9 @@ class C14:
                 'steps)' % (what, size, rec['msg'], nscript),
                 sig='C14.sample:liveness:' + what))
             return
+        if rec['outcome'] == 'exc' and 'base' not in t and \
+                rec['exc'] in ('ZeroDivisionError', 'OverflowError'):
+            return      # degenerate arithmetic on scalar draws (x / 0.0)
         if rec['outcome'] == 'exc':
             if self._may_raise(t):
                 return
@@ -641,6 +644,19 @@ class C14:
         if t is None:
             return
         ex.stats['oracle_sampled'] += 1
+        if rec['outcome'] != 'ok' and 'base' not in t and \
+                rec.get('exc') in ('ZeroDivisionError', 'OverflowError'):
+            # a degenerate expression (e.g. 1 / (p - p)): the same operation
+            # applied to the base guesses fails the same way
+            try:
+                with np.errstate(all='ignore'):
+                    ref = self._ref_guess(t)
+                degenerate = not np.all(np.isfinite(np.asarray(
+                    ref, dtype=complex)))
+            except (ZeroDivisionError, OverflowError):
+                degenerate = True
+            if degenerate:
+                return
         if rec['outcome'] != 'ok':
             ex.add(violation('C14.guess', ev['id'],
                              'guess/scale raised %s: %s' % (
